@@ -112,6 +112,27 @@ def run(repo, rep):
                         probs.append('writer flags are set from %s / %s' % (got[0], got[1]))
         rep.check(not probs, 'C08.M0', 'dsutils:%s:flag-wiring' % fname, f.loc(),
                   '(x, is_implicit_vr, is_little_endian) wired in that order', '; '.join(probs))
+    # ---------------------------------------------------------------- M6: ascending tag order on the wire
+    rep.rule('C08.M6', 'the command bytes that are fragmented are written by pydicom\'s dataset writer (ascending tag order whatever '
+             'the order the elements were created in) from the whole command set', 1)
+    from .c06 import ev_kind as _ev6
+    enc0 = repo.func('dimsemessages', 'DIMSEMessage.encode')
+    c6 = SymClient(repo, enc0, event_of=_ev6, hierarchy=hier, inline=repo.is_helper)
+    c6.run(empty_state())
+    cmd_srcs = sorted({e_.args[0] for e_, _s in c6.log if e_.kind in ('fragment', 'fragment_file') and e_.args
+                       and 'command_set' in e_.args[0] and 'data_set' not in e_.args[0]})
+    m6_undecided = False
+    if not cmd_srcs:
+        raise AnalysisError('%s: no fragmenter call on the command set found' % enc0.loc())
+    for src in cmd_srcs:
+        if src.replace(' ', '') in ('dsutils.encode(self.command_set,True,True)', 'dsutils.encode(self.command_set,is_implicit_vr=True,is_little_endian=True)'):
+            rep.ok('C08.M6', 'dimsemessages:DIMSEMessage.encode:writer', enc0.loc(), 'command bytes = dsutils.encode(self.command_set, True, True)')
+        elif src.startswith('dsutils.encode(self.command_set'):
+            rep.ok('C08.M6', 'dimsemessages:DIMSEMessage.encode:writer', enc0.loc(), 'command bytes = %s (flags: C08.M0)' % src)
+        else:
+            m6_undecided = True
+            rep.undecided('C08.M6', '%s: the command set is serialised by %s, not by the dataset writer: the order of the elements on the '
+                          'wire (and that they are the elements set_length measured) is not modelled' % (enc0.loc(), src[:160]))
     probs = []
     sites = 0
     for fi in [repo.func('dimsemessages', 'DIMSEMessage.encode'), repo.func('dimsemessages', 'DIMSEMessage.set_length'),
@@ -132,7 +153,7 @@ def run(repo, rep):
                     if flags != [True, True]:
                         probs.append('%s: command set handled with flags %s, PS3.7 6.3.1 requires implicit VR little endian'
                                      % (fi.qualname, [norm(a) for a in n.args[1:3]]))
-    if sites < 3:
+    if sites < 3 and not m6_undecided:
         probs.append('only %d command-set encode/decode sites found' % sites)
     rep.check(not probs, 'C08.M0', 'dimsemessages:command-set-syntax', dm.relpath,
               '%d command-set encode/measure/decode sites pass (True, True)' % sites, '; '.join(probs))
@@ -206,11 +227,20 @@ def run(repo, rep):
                          % s_.field('EXT:' + obj, 'CommandDataSetType'))
         sa = [e_ for e_, _st in ci.log if e_.kind == 'setattr' and len(e_.args) >= 2 and e_.args[0] in (obj, 'self.command_set')
               and e_.args[1] == 'ITEM(self.command_fields)']
+        dyn = [e_ for e_, _st in ci.log if e_.kind == 'setattr' and len(e_.args) >= 2 and e_.args[0] in (obj, 'self.command_set')
+               and e_.args[1] != 'ITEM(self.command_fields)' and not (e_.args[1][:1] in '\'"')]
+        if dyn:
+            # element names computed at run time from something else than the field list: which elements exist is not known
+            rep.undecided('C08.M1', '%s: elements of a blank command set are created under computed names (%s)' % (init.loc(), dyn[0].args[1][:120]))
+            probs = []
+            n_blank = -1
+            break
         if not sa:
             probs.append('the elements of command_fields are not created')
     if n_blank == 0:
         probs.append('no path creates a blank command set')
-    rep.check(not probs, 'C08.M1', 'dimsemessages:DIMSEMessage.__init__:command-set-construction', init.loc(),
+    if n_blank >= 0:
+      rep.check(not probs, 'C08.M1', 'dimsemessages:DIMSEMessage.__init__:command-set-construction', init.loc(),
               'CommandField from command_field; one element per keyword of command_fields', '; '.join(probs))
 
     # ---------------------------------------------------------------- M2
@@ -252,6 +282,10 @@ def run(repo, rep):
         else:
             break
     src_txt = norm(cur)
+    m2_undecided = False
+    if not src_txt.startswith('self.command_set'):
+        m2_undecided = True
+        rep.undecided('C08.M2', '%s: the elements measured come from %s, not from the command set itself' % (sl.loc(), src_txt[:120]))
     by_tag = False
     for t in filt:
         tt = norm(t)
@@ -306,7 +340,8 @@ def run(repo, rep):
             probs.append('(0000,0000) is set to %s, not to the sum of the element lengths' % st_[-1].args[0])
     if 'encode_element' not in norm(sl.node):
         probs.append('element lengths are not measured with dsutils.encode_element')
-    rep.check(not probs, 'C08.M2', 'dimsemessages:DIMSEMessage.set_length:exclusion', sl.loc(),
+    if not m2_undecided:
+      rep.check(not probs, 'C08.M2', 'dimsemessages:DIMSEMessage.set_length:exclusion', sl.loc(),
               'sum over all elements except (0000,0000) (%s), stored in (0000,0000)' %
               ('filtered by tag' if by_tag else 'first of a tag-sorted sequence'), '; '.join(probs))
 
